@@ -1247,6 +1247,64 @@ example : Sample X.ops true ⟨.fin 1, 2, .fin 1, .fin 0, false⟩ (.fin 0) [X.f
     ≠ .error .allNegInf :=
   sample_fixed_no_allNegInf_on xLawsOn xBeqLawOn _ _ _ (by decide) (by decide) ⟨.fin 7, by decide, by decide⟩
 
+/-- **sample_admissible_fixed for IEEE-like carriers** (the code in /repo, temperature > 0): relativised
+    laws (`OrdLawsOn`, `ArithLawsOn`, `BeqLawOn` — satisfied by the witness carrier with NaN and ±Inf:
+    `xLawsOn`, `xArithLawsOn`, `xBeqLawOn`); the run guard `runGood` (no NaN is ever compared: scaled
+    values, probabilities, running sums, threshold, cumulative sums, target) and "no NaN after the
+    shift" join the run contracts.  Conclusion as in `sample_admissible_fixed_partial`: the logit of
+    the returned id is not `-Inf` and the id is that of a member of the filter set. -/
+theorem sample_admissible_fixed_on {o : Ops α} (h : OrdLawsOn o) (ha : ArithLawsOn o) (hb : BeqLawOn o)
+    (P : Params α) (r : α) (logits : List α) (id : Nat) (ht : o.beq P.temp o.zero = false)
+    (hS : Sample o true P r logits = .ok id) :
+    ∃ L1, shiftMax o (topK o P.topK (mkTokens logits)) = .ok L1 ∧
+    (runGood o P r L1 = true → (∀ v ∈ L1.map (·.val), o.isNaN v = false) →
+     guardOK o (scaledOf o P L1) = true →
+     scaleOK o ((topK o P.topK (mkTokens logits)).map (·.val)) (L1.map (·.val)) = true →
+     scaleOK o (L1.map (·.val)) (scaledOf o P L1) = true →
+     softmaxOK o (scaledOf o P L1) (softmaxVals o (scaledOf o P L1)) = true →
+     (∃ v, logits[id]? = some v ∧ o.beq v o.negInf = false) ∧
+     ∃ f, minP o P.minP (topP o P.topP (probsOf o P L1)) = .ok f ∧ f <+: probsOf o P L1 ∧
+       ∃ x ∈ f, x.id = id) := by
+  obtain ⟨t, hc, hid⟩ := Sample_ok o true P r logits id hS
+  unfold sampleCore at hc
+  simp only [ht, Bool.false_eq_true, if_false] at hc
+  obtain ⟨L1, hs, hrest⟩ := afterTopK_spec_fix_on h ha hb P r _ t hc
+  refine ⟨L1, hs, ?_⟩
+  intro hrg hL1 hg hsh hsc hsm
+  obtain ⟨idx, y, f, x, hy, hyid, hyv, hf, hpre, hx, hxid⟩ := hrest hrg hL1 hg hsh hsc hsm
+  have hym : y ∈ mkTokens logits := topK_mem o _ _ y (List.mem_of_getElem? hy)
+  have := mkTokens_mem logits y hym
+  rw [hyid, hid] at this
+  exact ⟨⟨y.val, this, hyv⟩, f, hf, hpre, x, List.mem_of_getElem? hx, by rw [hxid, hid]⟩
+
+theorem xArithLawsOn : ArithLawsOn X.ops where
+  posInf := by decide
+  addZero := by
+    intro s z
+    cases s <;> cases z <;> simp [X.ops, X.beq, X.lt, X.add] <;> omega
+  addNaN := by
+    intro s z
+    cases s <;> cases z <;> simp [X.ops, X.add]
+
+/-- instantiation on the carrier WITH NaN: the former F18 input `[+Inf, 0]` (top-k 1 of 2: the heap
+    branch), every hypothesis of `sample_admissible_fixed_on` holds on that run -/
+example :
+    let P : Params X := ⟨.fin 1, 1, .fin 1, .fin 0, false⟩
+    let L : List (Tok X) := [⟨0, .pinf⟩]
+    let L1 : List (Tok X) := [⟨0, .fin 0⟩]
+    topK X.ops 1 (mkTokens [X.pinf, .fin 0]) = L ∧ (shiftMax X.ops L).toOption = some L1 ∧
+    runGood X.ops P (.fin 0) L1 = true ∧ (L1.map (·.val)).all (fun v => !X.ops.isNaN v) = true ∧
+    guardOK X.ops (scaledOf X.ops P L1) = true ∧
+    scaleOK X.ops (L.map (·.val)) (L1.map (·.val)) = true ∧
+    scaleOK X.ops (L1.map (·.val)) (scaledOf X.ops P L1) = true ∧
+    softmaxOK X.ops (scaledOf X.ops P L1) (softmaxVals X.ops (scaledOf X.ops P L1)) = true := by
+  decide
+
+example : ∃ L1, shiftMax X.ops (topK X.ops 1 (mkTokens [X.pinf, .fin 0])) = .ok L1 := by
+  obtain ⟨L1, h, _⟩ := sample_admissible_fixed_on xLawsOn xArithLawsOn xBeqLawOn
+    ⟨.fin 1, 1, .fin 1, .fin 0, false⟩ (.fin 0) [X.pinf, .fin 0] 0 (by decide) (by rfl)
+  exact ⟨L1, h⟩
+
 /-! ### round 7 (after review): an independent specification of top-p -/
 
 /-- the mass of the first `j` entries, accumulated the way the code does (left to right from 0) -/
